@@ -64,10 +64,12 @@ type vfScen struct {
 	Coord   string            `json:"coord"`
 	Fault   map[string]string `json:"fault"`
 	Kind    string            `json:"kind"`
-	NSrc    int               `json:"nsrc"` // measurement sources of the statement (all of the one db/rp)
-	Allowed []vfAllowed       `json:"allowed"` // terminal states of the model for this scenario
-	Variant int               `json:"variant"` // selects the concrete representative of the fault classes
-	Trace   bool              `json:"trace"`   // record events for trace validation
+	NSrc    int               `json:"nsrc"`            // measurement sources of the statement (all of the one db/rp)
+	Allowed []vfAllowed       `json:"allowed"`         // terminal states of the model for this scenario
+	Variant int               `json:"variant"`         // selects the concrete representative of the fault classes
+	Trace   bool              `json:"trace"`           // record events for trace validation
+	Limit   int               `json:"limit,omitempty"` // kind "query" only: LIMIT / OFFSET of the statement (TestVerifFanoutLimitOffset)
+	Offset  int               `json:"offset,omitempty"`
 }
 
 type vfInput struct {
@@ -193,14 +195,14 @@ func (cl *vfCluster) cur() *vfRun {
 
 type vfSvcMeta struct{ id uint64 }
 
-func (m *vfSvcMeta) NodeID() uint64                                    { return m.id }
-func (m *vfSvcMeta) MetaServers() []string                             { return nil }
-func (m *vfSvcMeta) SetMetaServers(a []string)                         {}
-func (m *vfSvcMeta) DataNode(id uint64) (*meta.NodeInfo, error)        { return &meta.NodeInfo{ID: id}, nil }
+func (m *vfSvcMeta) NodeID() uint64                                     { return m.id }
+func (m *vfSvcMeta) MetaServers() []string                              { return nil }
+func (m *vfSvcMeta) SetMetaServers(a []string)                          {}
+func (m *vfSvcMeta) DataNode(id uint64) (*meta.NodeInfo, error)         { return &meta.NodeInfo{ID: id}, nil }
 func (m *vfSvcMeta) CreateDataNode(a, b string) (*meta.NodeInfo, error) { return nil, nil }
 func (m *vfSvcMeta) DataNodeByTCPAddr(a string) (*meta.NodeInfo, error) { return nil, nil }
-func (m *vfSvcMeta) Status() (*meta.MetaNodeStatus, error)             { return nil, nil }
-func (m *vfSvcMeta) Save() error                                       { return nil }
+func (m *vfSvcMeta) Status() (*meta.MetaNodeStatus, error)              { return nil, nil }
+func (m *vfSvcMeta) Save() error                                        { return nil }
 
 type vfServer struct{}
 
@@ -304,7 +306,7 @@ type vfConn struct {
 	rmu       sync.Mutex
 	in        []byte
 	lastOp    string
-	lastN     int // markers the node will stream for the last request
+	lastN     int   // markers the node will stream for the last request
 	lastReq   int64 // unix nano of the last complete request, 0 once the reply has begun
 
 	wmu      sync.Mutex
@@ -593,16 +595,16 @@ type vfStore struct {
 
 var errVfUnused = errors.New("verif: not used by the harness")
 
-func (s *vfStore) ShardIDs() []uint64                                      { return nil }
-func (s *vfStore) Shard(id uint64) *tsdb.Shard                             { return nil }
-func (s *vfStore) ShardGroup(ids []uint64) tsdb.ShardGroup                 { return s.ShardGroupFn(ids) }
-func (s *vfStore) CreateShard(db, rp string, id uint64, en bool) error     { return errVfUnused }
-func (s *vfStore) WriteToShard(id uint64, pts []models.Point) error        { return errVfUnused }
-func (s *vfStore) RestoreShard(id uint64, r io.Reader) error               { return errVfUnused }
-func (s *vfStore) BackupShard(id uint64, t time.Time, w io.Writer) error   { return errVfUnused }
-func (s *vfStore) DeleteDatabase(name string) error                        { return errVfUnused }
-func (s *vfStore) DeleteMeasurement(db, name string) error                 { return errVfUnused }
-func (s *vfStore) DeleteRetentionPolicy(db, name string) error             { return errVfUnused }
+func (s *vfStore) ShardIDs() []uint64                                    { return nil }
+func (s *vfStore) Shard(id uint64) *tsdb.Shard                           { return nil }
+func (s *vfStore) ShardGroup(ids []uint64) tsdb.ShardGroup               { return s.ShardGroupFn(ids) }
+func (s *vfStore) CreateShard(db, rp string, id uint64, en bool) error   { return errVfUnused }
+func (s *vfStore) WriteToShard(id uint64, pts []models.Point) error      { return errVfUnused }
+func (s *vfStore) RestoreShard(id uint64, r io.Reader) error             { return errVfUnused }
+func (s *vfStore) BackupShard(id uint64, t time.Time, w io.Writer) error { return errVfUnused }
+func (s *vfStore) DeleteDatabase(name string) error                      { return errVfUnused }
+func (s *vfStore) DeleteMeasurement(db, name string) error               { return errVfUnused }
+func (s *vfStore) DeleteRetentionPolicy(db, name string) error           { return errVfUnused }
 func (s *vfStore) DeleteSeries(db string, src []influxql.Source, c influxql.Expr) error {
 	return errVfUnused
 }
@@ -616,8 +618,12 @@ func (s *vfStore) TagKeys(ctx context.Context, auth query.FineAuthorizer, ids []
 func (s *vfStore) TagValues(ctx context.Context, auth query.FineAuthorizer, ids []uint64, cond influxql.Expr) ([]tsdb.TagValues, error) {
 	return s.TagValuesFn(auth, ids, cond)
 }
-func (s *vfStore) SeriesCardinality(ctx context.Context, db string) (int64, error)       { return 0, errVfUnused }
-func (s *vfStore) MeasurementsCardinality(ctx context.Context, db string) (int64, error) { return 0, errVfUnused }
+func (s *vfStore) SeriesCardinality(ctx context.Context, db string) (int64, error) {
+	return 0, errVfUnused
+}
+func (s *vfStore) MeasurementsCardinality(ctx context.Context, db string) (int64, error) {
+	return 0, errVfUnused
+}
 func (s *vfStore) SeriesSketches(ctx context.Context, db string) (estimator.Sketch, estimator.Sketch, error) {
 	return s.SeriesSketchesFn(ctx, db)
 }
@@ -691,7 +697,9 @@ type vfShardGroup struct {
 
 func (g *vfShardGroup) fails() bool { return g.run.faultOf(g.node.id) == "errReply" }
 
-func (g *vfShardGroup) MeasurementsByRegex(re *regexp.Regexp) []string { return []string{vfMeasurement} }
+func (g *vfShardGroup) MeasurementsByRegex(re *regexp.Regexp) []string {
+	return []string{vfMeasurement}
+}
 
 func (g *vfShardGroup) FieldKeysByMeasurement(name []byte) []string { return []string{"value"} }
 
@@ -795,24 +803,28 @@ func (vfMetaBase) CreateRetentionPolicy(database string, spec *meta.RetentionPol
 func (vfMetaBase) CreateSubscription(database, rp, name, mode string, destinations []string) error {
 	return errVfUnused
 }
-func (vfMetaBase) CreateUser(name, password string, admin bool) (meta.User, error) { return nil, errVfUnused }
-func (vfMetaBase) Database(name string) *meta.DatabaseInfo                         { return nil }
-func (vfMetaBase) Databases() []meta.DatabaseInfo                                  { return nil }
-func (vfMetaBase) DeleteDataNode(id uint64) error                                  { return errVfUnused }
-func (vfMetaBase) DeleteMetaNode(id uint64) error                                  { return errVfUnused }
-func (vfMetaBase) DropShard(id uint64) error                                       { return errVfUnused }
-func (vfMetaBase) DropContinuousQuery(database, name string) error                 { return errVfUnused }
-func (vfMetaBase) DropDatabase(name string) error                                  { return errVfUnused }
-func (vfMetaBase) DropRetentionPolicy(database, name string) error                 { return errVfUnused }
-func (vfMetaBase) DropSubscription(database, rp, name string) error                { return errVfUnused }
-func (vfMetaBase) DropUser(name string) error                                      { return errVfUnused }
-func (vfMetaBase) MetaNodes() []meta.NodeInfo                                      { return nil }
+func (vfMetaBase) CreateUser(name, password string, admin bool) (meta.User, error) {
+	return nil, errVfUnused
+}
+func (vfMetaBase) Database(name string) *meta.DatabaseInfo          { return nil }
+func (vfMetaBase) Databases() []meta.DatabaseInfo                   { return nil }
+func (vfMetaBase) DeleteDataNode(id uint64) error                   { return errVfUnused }
+func (vfMetaBase) DeleteMetaNode(id uint64) error                   { return errVfUnused }
+func (vfMetaBase) DropShard(id uint64) error                        { return errVfUnused }
+func (vfMetaBase) DropContinuousQuery(database, name string) error  { return errVfUnused }
+func (vfMetaBase) DropDatabase(name string) error                   { return errVfUnused }
+func (vfMetaBase) DropRetentionPolicy(database, name string) error  { return errVfUnused }
+func (vfMetaBase) DropSubscription(database, rp, name string) error { return errVfUnused }
+func (vfMetaBase) DropUser(name string) error                       { return errVfUnused }
+func (vfMetaBase) MetaNodes() []meta.NodeInfo                       { return nil }
 func (vfMetaBase) RetentionPolicy(database, name string) (*meta.RetentionPolicyInfo, error) {
 	return nil, errVfUnused
 }
-func (vfMetaBase) SetAdminPrivilege(username string, admin bool) error                 { return errVfUnused }
-func (vfMetaBase) SetPrivilege(username, database string, p influxql.Privilege) error { return errVfUnused }
-func (vfMetaBase) TruncateShardGroups(t time.Time) error                               { return errVfUnused }
+func (vfMetaBase) SetAdminPrivilege(username string, admin bool) error { return errVfUnused }
+func (vfMetaBase) SetPrivilege(username, database string, p influxql.Privilege) error {
+	return errVfUnused
+}
+func (vfMetaBase) TruncateShardGroups(t time.Time) error { return errVfUnused }
 func (vfMetaBase) UpdateRetentionPolicy(database, name string, rpu *meta.RetentionPolicyUpdate, makeDefault bool) error {
 	return errVfUnused
 }
@@ -841,7 +853,9 @@ func (m *vfMeta) DataNode(id uint64) (*meta.NodeInfo, error) {
 	c := *ni
 	return &c, nil
 }
-func (m *vfMeta) DataNodes() []meta.NodeInfo { return append([]meta.NodeInfo(nil), m.data.DataNodes...) }
+func (m *vfMeta) DataNodes() []meta.NodeInfo {
+	return append([]meta.NodeInfo(nil), m.data.DataNodes...)
+}
 func (m *vfMeta) DataNodeByTCPAddr(a string) (*meta.NodeInfo, error) {
 	for i := range m.data.DataNodes {
 		if m.data.DataNodes[i].TCPAddr == a {
@@ -968,13 +982,14 @@ func vfJSONLine(v interface{}) string {
 // ---------------------------------------------------------------------------------------------- running a scenario
 
 type vfResult struct {
-	Outcome string // "success" | "error"
+	Outcome string  // "success" | "error"
 	Reads   []int   // per shard, summed over the sources
 	Per     [][]int // per source, per shard
 	Err     string
 	Assign  []string
 	Events  []map[string]interface{}
 	Notes   []string
+	Rows    [][]int // kind "query": the marker ids of the rows in result order, per source
 	Storm   bool
 	Slow    bool
 }
@@ -1243,7 +1258,8 @@ func vfExec(cl *vfCluster, sc *vfScen, rid int, timeout time.Duration) (res *vfR
 		if sc.Kind == "query" {
 			// the whole statement through the query engine (compile, map, field mapping, cursor)
 			sg.Close()
-			qerr, e := vfEngineSelect(mapper, tr, n, nsrc, sc.Variant, per, &res.Notes)
+			res.Rows = make([][]int, nsrc)
+			qerr, e := vfEngineSelect(mapper, tr, n, nsrc, sc.Variant, per, &res.Notes, sc.Limit, sc.Offset, res.Rows)
 			if e != nil {
 				return res, e
 			}
@@ -1435,7 +1451,7 @@ func vfExec(cl *vfCluster, sc *vfScen, rid int, timeout time.Duration) (res *vfR
 
 // vfEngineSelect runs "SELECT value FROM db0.rp0.m WHERE <range>" through query.Select with the cluster shard
 // mapper and counts the markers in the rows.
-func vfEngineSelect(mapper *ClusterShardMapper, tr influxql.TimeRange, n, nsrc, variant int, per [][]int, notes *[]string) (qerr error, err error) {
+func vfEngineSelect(mapper *ClusterShardMapper, tr influxql.TimeRange, n, nsrc, variant int, per [][]int, notes *[]string, limit, offset int, rows [][]int) (qerr error, err error) {
 	var from []string
 	for k := 0; k < nsrc; k++ {
 		name := fmt.Sprintf("%s.%s.%s", vfDB, vfRP, vfSourceName(k))
@@ -1445,6 +1461,12 @@ func vfEngineSelect(mapper *ClusterShardMapper, tr influxql.TimeRange, n, nsrc, 
 		from = append(from, name)
 	}
 	q := fmt.Sprintf("SELECT value FROM %s WHERE time >= %d AND time <= %d", strings.Join(from, ", "), tr.Min.UnixNano(), tr.Max.UnixNano())
+	if limit > 0 {
+		q += fmt.Sprintf(" LIMIT %d", limit)
+	}
+	if offset > 0 {
+		q += fmt.Sprintf(" OFFSET %d", offset)
+	}
 	st, err := influxql.ParseStatement(q)
 	if err != nil {
 		return nil, err
@@ -1473,6 +1495,7 @@ func vfEngineSelect(mapper *ClusterShardMapper, tr influxql.TimeRange, n, nsrc, 
 		}
 		if k >= 0 && id >= 1 && id <= n && row.Time == vfT0.UnixNano()+int64(id) {
 			per[k][id-1]++
+			rows[k] = append(rows[k], id)
 		} else {
 			*notes = append(*notes, "read:out-of-range-shard")
 		}
@@ -1925,6 +1948,70 @@ func TestVerifFanoutRPC(t *testing.T) {
 		t.Fatal(err)
 	}
 	vtrace.Done("TestVerifFanoutRPC", map[string]interface{}{"calls": checked})
+}
+
+// TestVerifFanoutLimitOffset: "the result equals the result of the same query over the union of the cluster's data"
+// for raw statements with LIMIT / OFFSET: on a healthy cluster, for every placement of the shards on local and
+// remote nodes and every coordinator, the rows of SELECT ... LIMIT l OFFSET o are exactly rows [o, o+l) of the
+// rows of the same statement without them (which the main oracle compares with the union).
+func TestVerifFanoutLimitOffset(t *testing.T) {
+	cl, err := vfNewCluster(3)
+	if err != nil {
+		t.Fatal(err)
+	}
+	defer cl.close()
+	nodes := []string{"n1", "n2", "n3"}
+	up := map[string]string{"n1": "up", "n2": "up", "n3": "up"}
+	placements := [][][]string{
+		{{"n1"}, {"n1"}, {"n1"}, {"n1"}},             // everything local to n1 (remote for the others)
+		{{"n1"}, {"n2"}, {"n1"}, {"n2"}},             // alternating
+		{{"n2"}, {"n2"}, {"n3"}, {"n3"}},             // nothing on n1
+		{{"n1", "n2"}, {"n2", "n3"}, {"n3"}, {"n1"}}, // replicated
+	}
+	cases := 0
+	id := 0
+	for pi, owners := range placements {
+		for _, coord := range nodes {
+			for nsrc := 1; nsrc <= 2; nsrc++ {
+				exec := func(l, o int) (*vfResult, error) {
+					id++
+					sc := &vfScen{ID: id, Nodes: nodes, Owners: owners, Coord: coord, Fault: up, Kind: "query", NSrc: nsrc, Variant: 1, Limit: l, Offset: o}
+					return vfExec(cl, sc, id, 10*time.Second)
+				}
+				full, err := exec(0, 0)
+				if err != nil {
+					t.Fatal(err)
+				}
+				if full.Outcome != "success" || len(full.Rows) != nsrc || len(full.Rows[0]) == 0 {
+					t.Fatalf("verif harness: unlimited statement on a healthy cluster: outcome %s rows %v err %s", full.Outcome, full.Rows, full.Err)
+				}
+				for _, lo := range [][2]int{{1, 0}, {2, 0}, {1, 1}, {2, 1}, {2, 2}, {1, 3}, {3, 3}, {0, 2}} {
+					got, err := exec(lo[0], lo[1])
+					if err != nil {
+						t.Fatal(err)
+					}
+					cases++
+					for k := 0; k < nsrc; k++ {
+						want := []int{}
+						if lo[1] < len(full.Rows[k]) {
+							want = full.Rows[k][lo[1]:]
+						}
+						if lo[0] > 0 && len(want) > lo[0] {
+							want = want[:lo[0]]
+						}
+						if got.Outcome != "success" || fmt.Sprint(got.Rows[k]) != fmt.Sprint(want) {
+							vtrace.Mismatch("limit-offset:rows", fmt.Sprintf("placement %d (owners %v) coordinator %s, %d source(s), source %d: LIMIT %d OFFSET %d returned markers %v (outcome %s %s); the statement without them returns %v, so rows [%d,%d) are %v",
+								pi, owners, coord, nsrc, k, lo[0], lo[1], got.Rows[k], got.Outcome, got.Err, full.Rows[k], lo[1], lo[1]+lo[0], want),
+								map[string]interface{}{"limitoffset": true})
+							vtrace.Done("TestVerifFanoutLimitOffset", map[string]interface{}{"cases": cases})
+							return
+						}
+					}
+				}
+			}
+		}
+	}
+	vtrace.Done("TestVerifFanoutLimitOffset", map[string]interface{}{"cases": cases})
 }
 
 // TestVerifFanoutStoreStream: the frame stream of a remote storage read (ReadFilter / ReadGroup) that is cut -
